@@ -427,7 +427,11 @@ def list_method(eng, l, name, args, kw, line):
         eng.partial(present, 'ValueError', line)
         eng.run.assume(z3.And(0 <= i, i < n, da[l.ref][i] == x,
                               z3.ForAll([j], z3.Implies(z3.And(0 <= j, j < i), da[l.ref][j] != x))))
-        row = eng.def_array([j], z3.If(j >= i, da[l.ref][j + 1], da[l.ref][j]))
+        # only the cells of the new list are defined (guarded quantifier: the finite counter-model search can expand it;
+        # the unguarded definition `forall j. row[j] == old[j + 1]` sends z3's model finder along j, j + 1, j + 2, ...)
+        row = eng.run.fresh('removed', da[l.ref].sort())
+        eng.run.assume(z3.ForAll([j], z3.Implies(z3.And(0 <= j, j < n - 1),
+                                                 row[j] == z3.If(j >= i, da[l.ref][j + 1], da[l.ref][j]))), silent=True)
         # implied by the definition of row (old index -> new index), stated with a trigger on the OLD row so that
         # "every other element is still there" is found by instantiation
         orow = da[l.ref]
@@ -447,7 +451,10 @@ def list_method(eng, l, name, args, kw, line):
         return SV(i, INT)
     if name == 'insert' and args[0] == 0:
         j = z3.Const('j!ins', I)
-        row = eng.def_array([j], z3.If(j == 0, eng.coerce_term(args[1], l.ety), da[l.ref][j - 1]))
+        row = eng.run.fresh('inserted', da[l.ref].sort())
+        eng.run.assume(z3.ForAll([j], z3.Implies(z3.And(0 <= j, j < n + 1),
+                                                 row[j] == z3.If(j == 0, eng.coerce_term(args[1], l.ety), da[l.ref][j - 1]))),
+                       silent=True)
         eng.heap.set(nm, z3.Store(da, l.ref, row))
         eng.heap.set('L.len', z3.Store(ln, l.ref, n + 1))
         return None
